@@ -706,6 +706,11 @@ class Inliner:
                 tg = st.targets[0] if isinstance(st, ast.Assign) and len(st.targets) == 1 else (st.target if isinstance(st, ast.AnnAssign) else None)
                 v = norm._Subst(dict(env)).visit(copy.deepcopy(st.value))
                 if isinstance(tg, ast.Name):
+                    # a temporary read more than once stands for ONE evaluation: only names / scalars may be written out at every read
+                    later = body[body.index(st) + 1:]
+                    reads = sum(1 for x in later for n in ast.walk(x) if isinstance(n, ast.Name) and n.id == tg.id and isinstance(n.ctx, ast.Load))
+                    if reads > 1 and not (norm.is_reference(v) or norm.is_scalar(v) or isinstance(v, ast.Constant)):
+                        return None
                     env[tg.id] = v
                     continue
                 if isinstance(tg, ast.Tuple) and all(isinstance(e, ast.Name) for e in tg.elts):
@@ -2532,6 +2537,7 @@ class Canon:
         b = [s for s in b if not (isinstance(s, ast.FunctionDef) and s.name not in used)]
         b = norm.unroll_literal_loops(b)
         b = norm.map_pushdown(norm.extend_to_augassign(b), pure_calls=_PURE_EXT)
+        b = norm.split_parallel_assign(norm.merge_display_building(b))
         b = norm.fold_none_tests(b)             # `if count is not None` on a count a helper just computed
         b = self.thread_sentinels(b, module)
         b = self.fold_enum_tests(b, module)
@@ -2550,7 +2556,11 @@ class Canon:
         if subst:
             b = norm.forward_subst(b, pure_calls=_PURE_EXT)
             b = _drop_dead_temps(b)
+            b = norm.split_parallel_assign(b)          # a, b = rows   with rows a display that was just written in
             b = subst_single_use(b)
+            b2 = norm.split_parallel_assign(b)
+            if len(b2) != len(b) or any(x is not y for x, y in zip(b2, b)):
+                b = subst_single_use(_drop_dead_temps(norm.forward_subst(b2, pure_calls=_PURE_EXT)))
             b = norm.forward_subst(b, pure_calls=_PURE_EXT)
             b = _drop_dead_temps(b)
             b = norm.normalise_loops(b)
